@@ -111,3 +111,9 @@ Proof.
   - apply IH. apply andb_true_iff in H; tauto.
   - inversion H; subst. apply andb_true_iff; split; [assumption|apply IH; assumption].
 Qed.
+
+Lemma last_cons {X} (a : X) l d : last (a :: l) d = last l a.
+Proof.
+  revert a d; induction l as [|x l IH]; intros a d; [reflexivity|].
+  change (last (a :: x :: l) d) with (last (x :: l) d). rewrite IH. symmetry. apply IH.
+Qed.
